@@ -1031,6 +1031,15 @@ class World:
 
         def m(f):
             return VFunc("str." + name, f)
+        cs = s.const()
+        if cs is not None and name in ("lower", "upper", "strip", "islower", "isupper", "isidentifier"):
+            # a literal string: computed
+            def conc(ex_, a, k, cs=cs, name=name):
+                if a or k:
+                    raise Unsupported("str.%s with arguments on a literal" % name)
+                r = getattr(cs, name)()
+                return VBool(r) if isinstance(r, bool) else VStr(r)
+            return m(conc)
         if name == "lower":
             fl = z3.Function("str_lower", S, S)
             self.ext.use(ex, "str.lower: uninterpreted, idempotent")
